@@ -16,6 +16,7 @@ import (
 	"os/exec"
 	"path/filepath"
 	"runtime"
+	"strings"
 	"sync"
 	"testing"
 
@@ -50,17 +51,18 @@ var kinds = map[string][]string{
 	"type1-issuer":     {"Evaluate", "Verify", "TokenKeyID", "TokenKey"},
 	"type5-issuer":     {"Evaluate", "Verify", "TokenKeyID", "TokenKey"},
 	"type2-issuer":     {"Evaluate", "TokenKeyID", "TokenKey"},
-	"type3-issuer":     {"Evaluate", "TokenKeyID", "NameKey", "OriginIndexKey"},
+	"type3-issuer":     {"Evaluate", "EvaluateUnknownOrigin", "TokenKeyID", "NameKey", "OriginIndexKey"},
 	"batch-issuer":     {"EvaluateBatch"},
 	"ecdsa-keys":       {"Sign", "SignASN1", "Verify", "VerifyASN1", "BlindPublicKey", "UnblindPublicKey", "BlindKeySign", "Public"},
 	"ed25519-keys":     {"Sign", "Verify", "BlindPublicKey", "UnblindPublicKey", "BlindKeySign", "Public"},
 	"ecdsa-generate":   {"GenerateKey", "Sign"},
+	"clients":          {"Issue1", "Issue2", "Issue3", "Issue5"},
 	"ed25519-firstuse": {"Sign", "Verify", "NewKeyFromSeed", "BlindKeySign"},
 	"ecdsa-firstuse":   {"Sign", "Verify", "GenerateKey"},
 }
 
 func kindNames() []string {
-	return []string{"type1-issuer", "type5-issuer", "type2-issuer", "type3-issuer", "batch-issuer", "ecdsa-keys", "ed25519-keys", "ecdsa-generate"}
+	return []string{"type1-issuer", "type5-issuer", "type2-issuer", "type3-issuer", "batch-issuer", "ecdsa-keys", "ed25519-keys", "ecdsa-generate", "clients"}
 }
 
 // a check to run after the goroutines have joined
@@ -281,6 +283,27 @@ func execute(p Plan) error {
 								return nil
 							}
 						})
+					case "EvaluateUnknownOrigin":
+						// a well-formed request for an origin that is not registered (a different one per call): the error path
+						origin := fmt.Sprintf("unregistered-%d-%d.example", g, i)
+						st, err := type3.NewRateLimitedClientFromSecret([]byte{byte(g + 1), byte(i + 1)}).CreateTokenRequest(chal, nonce, []byte{byte(i + 1), byte(g + 1)}, wantID, &pool.PublicKey, origin, iss.NameKey())
+						if err != nil {
+							prepErr = err
+							return
+						}
+						enc := st.Request().Marshal()
+						runs[g] = append(runs[g], func() post {
+							resp, key, err := iss.Evaluate(enc)
+							return func() error {
+								if err == nil || resp != nil || key != nil {
+									return fmt.Errorf("concurrent Evaluate served a request for an unregistered origin")
+								}
+								if msg := err.Error(); strings.Contains(msg, "unregistered-") && !strings.Contains(msg, origin) {
+									return fmt.Errorf("concurrent Evaluate of a request for %q reports another call's origin: %q", origin, msg)
+								}
+								return nil
+							}
+						})
 					case "TokenKeyID":
 						runs[g] = append(runs[g], func() post {
 							id := iss.TokenKeyID()
@@ -315,21 +338,39 @@ func execute(p Plan) error {
 				}
 			}
 		case "batch-issuer":
-			refKey := gen.OPRFKey(oprf.SuiteP384, seed)
-			pool := gen.RSAPool()[int(seed[0])%8]
-			i1 := type1.NewBasicPrivateIssuer(gen.FreshOPRFKey(oprf.SuiteP384, refKey))
-			i2 := type2.NewBasicPublicIssuer(freshRSA(pool))
-			bi := batched.NewBasicBatchedIssuer(gen.Batch1{I: i1}, gen.Batch2{I: i2})
-			id1 := gen.OPRFKeyID(refKey)
-			id2 := type2.NewBasicPublicIssuer(pool).TokenKeyID()
+			// two issuers per token type (a key rotation), distinct truncated key ids; every batch targets a drawn pair of keys
+			var k1 [2]*oprf.PrivateKey
+			var id1 [2][]byte
+			for j, c := 0, 0; j < 2; c++ {
+				k := gen.OPRFKey(oprf.SuiteP384, append(append([]byte{}, seed...), byte(c)))
+				id := gen.OPRFKeyID(k)
+				if j == 1 && id[31] == id1[0][31] {
+					continue
+				}
+				k1[j], id1[j] = k, id
+				j++
+			}
+			pools := [2]*rsa.PrivateKey{gen.RSAPool()[int(seed[0])%8], nil}
+			id2 := [2][]byte{type2.NewBasicPublicIssuer(pools[0]).TokenKeyID(), nil}
+			for c := 1; c < 8; c++ {
+				cand := gen.RSAPool()[(int(seed[0])+c)%8]
+				if id := type2.NewBasicPublicIssuer(cand).TokenKeyID(); id[31] != id2[0][31] {
+					pools[1], id2[1] = cand, id
+					break
+				}
+			}
+			bi := batched.NewBasicBatchedIssuer(
+				gen.Batch1{I: type1.NewBasicPrivateIssuer(gen.FreshOPRFKey(oprf.SuiteP384, k1[0]))}, gen.Batch2{I: type2.NewBasicPublicIssuer(freshRSA(pools[0]))},
+				gen.Batch1{I: type1.NewBasicPrivateIssuer(gen.FreshOPRFKey(oprf.SuiteP384, k1[1]))}, gen.Batch2{I: type2.NewBasicPublicIssuer(freshRSA(pools[1]))})
 			for g := range p.Ops {
-				for range p.Ops[g] {
-					s1, err := type1.NewBasicPrivateClient().CreateTokenRequest(chal, nonce, id1, refKey.Public())
+				for i := range p.Ops[g] {
+					a, b := (g+i)%2, (g/2+i)%2
+					s1, err := type1.NewBasicPrivateClient().CreateTokenRequest(chal, nonce, id1[a], k1[a].Public())
 					if err != nil {
 						prepErr = err
 						return
 					}
-					s2, err := type2.NewBasicPublicClient().CreateTokenRequest(chal, nonce, id2, &pool.PublicKey)
+					s2, err := type2.NewBasicPublicClient().CreateTokenRequest(chal, nonce, id2[b], &pools[b].PublicKey)
 					if err != nil {
 						prepErr = err
 						return
@@ -348,6 +389,9 @@ func execute(p Plan) error {
 							list, err := batched.UnmarshalBatchedTokenResponses(enc)
 							if err != nil || len(list) != 2 {
 								return fmt.Errorf("concurrent EvaluateBatch response does not decode: %v", err)
+							}
+							if len(list[0]) == 0 || len(list[1]) == 0 {
+								return fmt.Errorf("concurrent EvaluateBatch answered a valid request with an absent entry")
 							}
 							if _, err := s1.FinalizeToken(list[0]); err != nil {
 								return fmt.Errorf("entry 0 does not finalize: %v", err)
@@ -468,16 +512,28 @@ func execute(p Plan) error {
 				}
 			}
 		case "ed25519-keys":
-			priv := pated.NewKeyFromSeed(bytes.Repeat(seed[:4], 8))
-			pub := priv.Public().(pated.PublicKey)
+			// three different key pairs are in use at the same time (per-key caches inside the package would be shared)
+			type edKey struct {
+				priv   pated.PrivateKey
+				pub    pated.PublicKey
+				sig0   []byte
+				wantBP pated.PublicKey
+				wantBS []byte
+			}
+			var edKeys []edKey
 			blind := bytes.Repeat([]byte{0x19}, 32)
 			ctx := []byte("ctx")
 			msg := []byte("message")
-			sig0 := pated.Sign(priv, msg)
-			wantBP, _ := pated.BlindPublicKeyWithContext(pub, blind, ctx)
-			wantBS := pated.BlindKeySignWithContext(priv, msg, blind, ctx)
+			for j := 0; j < 3; j++ {
+				priv := pated.NewKeyFromSeed(bytes.Repeat(append([]byte{byte(j)}, seed[:3]...), 8))
+				pub := priv.Public().(pated.PublicKey)
+				bp, _ := pated.BlindPublicKeyWithContext(pub, blind, ctx)
+				edKeys = append(edKeys, edKey{priv, pub, pated.Sign(priv, msg), bp, pated.BlindKeySignWithContext(priv, msg, blind, ctx)})
+			}
 			for g := range p.Ops {
-				for _, opn := range p.Ops[g] {
+				for i, opn := range p.Ops[g] {
+					k := edKeys[(g+i)%3]
+					priv, pub, sig0, wantBP, wantBS := k.priv, k.pub, k.sig0, k.wantBP, k.wantBS
 					switch opn {
 					case "Sign":
 						runs[g] = append(runs[g], func() post {
@@ -540,6 +596,26 @@ func execute(p Plan) error {
 							}
 						})
 					}
+				}
+			}
+		case "clients":
+			// independent clients, each with its own state, key copies and honest response, create and finalize requests at
+			// the same time: nothing is shared between them except the library's package-level state
+			for g := range p.Ops {
+				for i, opn := range p.Ops[g] {
+					typ := map[string]uint16{"Issue1": 1, "Issue2": 2, "Issue3": 3, "Issue5": 5}[opn]
+					cseed := append([]byte{byte(g), byte(i)}, seed...)
+					var okey *oprf.PrivateKey
+					if typ == 1 {
+						okey = gen.OPRFKey(oprf.SuiteP384, cseed)
+					} else if typ == 5 {
+						okey = gen.OPRFKey(oprf.SuiteRistretto255, cseed)
+					}
+					rsaKey := gen.RSAPool()[(g+i)%8]
+					runs[g] = append(runs[g], func() post {
+						err := issueOnce(typ, okey, rsaKey, chal, nonce, cseed)
+						return func() error { return err }
+					})
 				}
 			}
 		case "ed25519-firstuse":
@@ -814,4 +890,84 @@ func TestFirstUseInFreshProcess(t *testing.T) {
 		}
 		s.Sample(func() any { return p })
 	})
+}
+
+// issueOnce runs one complete issuance (create, evaluate, finalize) of a type with objects nobody else uses and
+// checks the token by independent means.
+func issueOnce(typ uint16, okey *oprf.PrivateKey, rsaKey *rsa.PrivateKey, chal, nonce, secret []byte) error {
+	sess := &gen.Session{Type: typ, Challenge: chal, Nonces: [][]byte{nonce}, OKey: okey, RKey: rsaKey}
+	var toks []tokens.Token
+	switch typ {
+	case 1:
+		iss := type1.NewBasicPrivateIssuer(okey)
+		sess.KeyID = iss.TokenKeyID()
+		st, err := type1.NewBasicPrivateClient().CreateTokenRequest(chal, nonce, sess.KeyID, iss.TokenKey())
+		if err != nil {
+			return err
+		}
+		resp, err := iss.Evaluate(st.Request())
+		if err != nil {
+			return err
+		}
+		tk, err := st.FinalizeToken(resp)
+		if err != nil {
+			return fmt.Errorf("concurrent independent client: honest type-1 response rejected: %v", err)
+		}
+		toks = []tokens.Token{tk}
+	case 5:
+		iss := type5.NewBatchedPrivateIssuer(okey)
+		sess.KeyID = iss.TokenKeyID()
+		sess.Nonces = [][]byte{nonce, nonce}
+		st, err := type5.NewBatchedPrivateClient().CreateTokenRequest(chal, sess.Nonces, sess.KeyID, iss.TokenKey())
+		if err != nil {
+			return err
+		}
+		resp, err := iss.Evaluate(st.Request())
+		if err != nil {
+			return err
+		}
+		toks, err = st.FinalizeTokens(resp)
+		if err != nil {
+			return fmt.Errorf("concurrent independent client: honest type-5 response rejected: %v", err)
+		}
+	case 2:
+		iss := type2.NewBasicPublicIssuer(rsaKey)
+		sess.KeyID = iss.TokenKeyID()
+		st, err := type2.NewBasicPublicClient().CreateTokenRequest(chal, nonce, sess.KeyID, iss.TokenKey())
+		if err != nil {
+			return err
+		}
+		resp, err := iss.Evaluate(st.Request())
+		if err != nil {
+			return err
+		}
+		tk, err := st.FinalizeToken(resp)
+		if err != nil {
+			return fmt.Errorf("concurrent independent client: honest type-2 response rejected: %v", err)
+		}
+		toks = []tokens.Token{tk}
+	case 3:
+		iss := type3.NewRateLimitedIssuer(rsaKey)
+		if err := iss.AddOrigin("o.example"); err != nil {
+			return err
+		}
+		sess.KeyID = iss.TokenKeyID()
+		st, err := type3.NewRateLimitedClientFromSecret(secret[:20]).CreateTokenRequest(chal, nonce, secret[2:22], sess.KeyID, iss.TokenKey(), "o.example", iss.NameKey())
+		if err != nil {
+			return err
+		}
+		resp, _, err := iss.Evaluate(st.Request().Marshal())
+		if err != nil {
+			return err
+		}
+		tk, err := st.FinalizeToken(resp)
+		if err != nil {
+			return fmt.Errorf("concurrent independent client: honest type-3 response rejected: %v", err)
+		}
+		toks = []tokens.Token{tk}
+	}
+	if err := sess.CheckTokens(toks); err != nil {
+		return fmt.Errorf("concurrent independent client (type %d): finalization returned no error but %v", typ, err)
+	}
+	return nil
 }
